@@ -35,7 +35,8 @@ def expected_arg(wire_type, value):
 
 def check_one(ctx, m, vec, channel):
     p = lib.pamqp()
-    case = {'method': m.name, 'vec': tojson(list(vec)), 'channel': channel}
+    case = corpus.case_mark({'method': m.name, 'vec': tojson(list(vec)),
+                             'channel': channel})
     fp = 'roundtrip|{}|{}|{}'.format(m.name, channel, short(list(vec), 400))
     try:
         obj = corpus.construct(m, vec)
@@ -90,9 +91,14 @@ def run(task, ctx):
         ctx.case(key, not trivial, sample=lambda: {
             'method': m.name, 'vec': short(list(vec), 200),
             'channel': channel})
+        if ctx.evaluations % 29 == 0:
+            corpus.disturb()     # explore from a non-initial state too
+            corpus.DISTURBED = True
+            ctx.count('disturbed')
         check_one(ctx, m, vec, channel)
 
 
 def replay(case, ctx):
+    corpus.replay_prepare(case)
     m = spec_table.BY_NAME[case['method']]
     check_one(ctx, m, tuple(fromjson(case['vec'])), case['channel'])
